@@ -1,10 +1,4 @@
 // A-STD (trusted): std functions used by print_string that vstd does not specify.
-pub uninterp spec fn pat_is_char<P>() -> bool;
-pub uninterp spec fn pat_char<P>(p: P) -> char;
-#[verifier::external_body]
-pub proof fn axiom_pat_char(c: char)
-    ensures pat_is_char::<char>(), pat_char::<char>(c) == c
-{}
 // str::find(pattern): for a `char` pattern, Some(_) iff the character occurs
 pub assume_specification<P: std::str::pattern::Pattern> [str::find] (s: &str, p: P) -> (r: Option<usize>)
     ensures pat_is_char::<P>() ==> (r is Some <==> s@.contains(pat_char(p)));
